@@ -4,8 +4,9 @@ from props._semprop import simple
 
 from common import prove
 
-MODULE = 'Proofs.Props.C14'
-THEOREMS = ['Facto.elabStmts_cons_ok', 'Facto.elabStmts_cons_error', 'Facto.C14_violation_in_loop_rejected']
+MODULE = 'Proofs.Props.C15'
+THEOREMS = ['Facto.elabStmts_cons_ok', 'Facto.elabStmts_cons_error', 'Facto.C14_violation_in_loop_rejected',
+            'Facto.checkAll_sound', 'Facto.scalar_end_to_end', 'Facto.observed_scalar_end_to_end', 'Facto.constVal_sound']
 
 
 def run(res, tier):
